@@ -41,7 +41,7 @@ BATTERY = {
             ("zerow", 36, 36), ("degen", 75, 75), ("duplabel", 12, 12), ("finaldeadend", 72, 72)],
     "C14": [("stop", 800, 16000), ("dead", 250, 4800), ("diag", 160, 160), ("nonabs", 60, 504),
             ("samerow", 144, 144), ("loopdiag", 72, 72), ("slowrew", 36, 72), ("forced", 64, 128), ("degen", 75, 75), ("minreachrank", 48, 48), ("zerow", 36, 36)],
-    "C10": [("hist", 250, 4800), ("edit", 120, 3000), ("zerow", 36, 36), ("degen", 75, 75)],
+    "C10": [("hist", 250, 3000), ("edit", 120, 2000), ("zerow", 36, 36), ("degen", 75, 75)],
     "C13": [("perm", 400, 8000)],
 }
 
